@@ -14,6 +14,10 @@ let ierr_name = function
   | M.IEIdempotency -> "idempotency_conflict" | M.IEMalformed -> "malformed"
 
 let action_of_sx = function
+  | L [A "resolve"] -> M.AResolve
+  | L [A "import_stale"; d; t; now] ->
+    let t = int_of_string (atom t) in
+    M.AImportStale (nat_of_int (int_of_string (atom d)), (if t < 0 then None else Some (nat_of_int t)), zarg now)
   | L [A "import_shift"; w; now; dl; dt] -> M.AImportShift (atom w = "1", zarg now, zarg dl, zarg dt)
   | L [A "import"; d; t; now] ->
     let t = int_of_string (atom t) in
@@ -69,6 +73,7 @@ let ares_sx actions rs =
   go actions rs
 
 let result_sx_of a (act : M.action) = function
+  | M.RResolve -> L [A "resolve"]
   | M.RImport (None, b) -> L [A "import"; A "ok"; flags a b]
   | M.RImport (Some e, _) -> L [A "import"; A (ierr_name e)]
   | M.RSingle rs -> L [A "write"; L (List.map opt_result_sx rs)]
